@@ -12,8 +12,8 @@ from . import tree
 PY_INC = sysconfig.get_paths()["include"]
 EXT_SUFFIX = sysconfig.get_config_var("EXT_SUFFIX")
 BASE_CFLAGS = ["-O0", "-w", "-fPIC", "-fwrapv", "-fno-strict-aliasing"]
-SAN_CFLAGS = ["-O1", "-g", "-w", "-fPIC", "-fno-strict-aliasing", "-fno-omit-frame-pointer",
-              "-fsanitize=address,undefined", "-fno-sanitize=function,vptr",
+SAN_CFLAGS = ["-O0", "-g1", "-w", "-fPIC", "-fno-strict-aliasing", "-fno-omit-frame-pointer",
+              "-fsanitize=address,undefined", "-fno-sanitize=vptr",
               "-fno-sanitize-recover=undefined"]
 
 
